@@ -34,7 +34,7 @@ LEVEL_TEXT = ("Machine-checked proof over the Lean model of the receiver: for ev
               "declares one; a frame whose verdict is not accept is never handed to the backend and never acknowledged, header faults are answered with the META message, "
               "payload faults of requests with the error response; CRC-16/ARC changes under every non-zero error pattern confined to a 16-bit window, for messages of any length, hence a burst inside sequence number / "
               "address / block size of an accepted frame with header checksum is classified as bad header checksum and a burst inside the payload of a frame with payload checksum as bad payload checksum "
-              "; the same for every two-bit error whose bits are at most 32 766 positions apart (the order of x modulo the polynomial is 32 767, established by kernel evaluation; frames of up to 4 095 octets: any two positions) (the one-bit errors of word 0 are enumerated, not proved; bursts straddling block size and header checksum are a recorded finding).  "
+              "; the same for every two-bit error whose bits are at most 32 766 positions apart (the order of x modulo the polynomial is 32 767, established by kernel evaluation; frames of up to 4 095 octets: any two positions) ; a single-bit error in the first header word of an accepted serial frame is never accepted (checksum-covered bits, or - for the two checksum option bits - the size rule / header length) (bursts straddling block size and header checksum are a recorded finding).  "
               "Tied to the C code by enumerating all 1-bit flips, bursts, truncations and extensions of a frame corpus and all option-bit combinations.")
 LEVEL_NOTE = "Trusted: Lean kernel, axioms propext/Classical.choice/Quot.sound + bv_decide axioms (CRC step lemmas); hand-written model tied by the harness."
 ALLOW_BV = True
